@@ -229,8 +229,13 @@ func (s *Server) Run(addr string, opt ...Option) error {
 		s.connWg.Add(1)
 		go func() {
 			defer func() {
+				// this needs to be the very last thing we do, since Stop is
+				// waiting on it: when Stop returns every conn must be closed,
+				// its handlers finished and its onCloseHandler called.
 				s.logger.Debug("connWg done", "op", op, "conn", localConnID)
 				s.connWg.Done()
+			}()
+			defer func() {
 				err := conn.close()
 				if err != nil {
 					s.logger.Error("error closing conn", "op", op, "conn", localConnID, "conn/req", "err", err)
